@@ -87,6 +87,25 @@ before fixes/15-ensure-layers.patch — this theorem then fails to build and the
 failing schedule.) -/
 theorem gen_layers_from_latest : Gsu.Gen.Dbphys.layersFromLatest = true := rfl
 
+/-- persist skips a table only if NO index has unsaved changes in its base layer (with the test of
+fixes/15b-persist-any-index-modified.patch): needed after an index build, when the new index has
+rows in its btree that the older indexes still hold in their layers -/
+theorem persist_skips_only_clean (ti : Info) (h : ti.modifiedWith true = false) :
+    ∀ ov ∈ ti.idx, ∀ k, (ov.layers.headD FMap.empty).get k = none :=
+  clean_of_not_modified ti h
+
+/-- counter-witness for the test `ti.Indexes[0].Modified()`: index 0 has an empty base layer (an add
+and a delete cancelled there) while a later built index, which has the row in its btree, holds
+the delete — the table is skipped and the delete is never saved -/
+theorem persist_first_index_only_counter :
+    ∃ ti : Info, ti.modifiedWith false = false ∧ ∃ ov ∈ ti.idx, ov.modified = true :=
+  ⟨⟨[], [⟨FMap.empty, [FMap.empty]⟩, ⟨FMap.empty, [Layer.ins FMap.empty [1] (.del 7)]⟩], 0, 0, 0, 0, [⟨0, 0⟩]⟩,
+   by decide, ⟨_, List.mem_cons_of_mem _ (List.mem_cons_self ..), by decide⟩⟩
+
+/-- (G) Meta.Persist decides "unsaved changes" by looking at every index of the table. (False for
+the code before fixes/15b: `ti.Indexes[0].Modified()`.) -/
+theorem gen_persist_checks_all_indexes : Gsu.Gen.Dbphys.persistChecksAllIndexes = true := rfl
+
 /-- (G) the slice arithmetic of WithMerged / WithSaved is the one of the model (drop (n+1), drop 1) -/
 theorem gen_overlay_slices :
     (∀ len n : Int, Gsu.Gen.Dbphys.withMergedMake len n = len - n ∧ Gsu.Gen.Dbphys.withMergedLo0 len n = 1 + n ∧
